@@ -9,9 +9,9 @@ open BEI.Rs
 def timerM (t : ConditionTimer) : CTimer := { relative := t.relative_speed, duration := t.duration }
 
 theorem timer_update (t : ConditionTimer) (k : Tick) : timerM (t.update k) = (timerM t).update k := by
-  unfold CTimer.update timerM
-  simp only [rs_timer, Tick.relative_speed, Tick.delta_secs]
-  (repeat' split) <;> simp_all
+  obtain ⟨rel, dur⟩ := t
+  cases rel <;> simp only [rs_timer, CTimer.update, timerM, Tick.relative_speed, Tick.delta_secs] <;>
+    by_cases h : k.speed = 0 <;> simp_all
 
 theorem timer_reset (t : ConditionTimer) : timerM t.reset = (timerM t).reset := by
   simp [rs_timer, CTimer.reset, timerM]
